@@ -128,10 +128,11 @@ PROPS["C03"] = {
         KERNEL, HARNESS, GENCHECK,
         "statements in lean/Ogen/Props/C03.lean; models ValidateM.intValidate (BitVec 64, literal incl. the v *= -1 wrap and Go's divide-by-zero panic), ArrVal.validateLength/uniqueItems, IntBounds.propsOk, Sec.missingAny, FloatV.validate (over the exact rational value of a double, decoded from its bit pattern by FloatV.ofBits; Mathlib's ℚ lemmas in FloatValidate_proof) — hand-written from validate/*.go and the generated required-mask loop; tie = line-by-line comparison with the real validate.Int/Float/Array/String/Object/UniqueItems on boundary grids and random bit patterns",
         "the reference validator of the harness (cmd/corr/schema.go: JSON Schema draft 4 + nullable for the keyword fragment, exact rationals) is the oracle for regenerated servers; it is independent of ogen but itself only tested",
-        "NOT proved: schema → validator translation (gen/ir/validation.go), needValidation, Opt/Nil boxing, additionalProperties handling, sum types, formats, regex matching",
+        "model JCodec.accept = decode-then-validate (lean/Ogen/JsonCodecModel.lean) hand-written from the struct / generic / array codec templates and gen/_template/validators.tmpl for the fragment objects (required / optional × nullable members), arrays (nullable items, item counts), integers (bounds, exclusive flags, multipleOf), strings (length in code points), booleans; tie = regenerated *servers* of random schemas of the fragment answer random bodies (valid in every member order, values on keyword boundaries, single-fault mutants) with the handler or 400 exactly as the model says (driver tag jaccept) and as the reference validator says",
+        "NOT proved: schema → validator translation outside that fragment (gen/ir/validation.go), needValidation, additionalProperties handling, sum types, formats, regex matching, numbers other than integers in the composed model",
     ],
     "assumptions": ["OpenAPI 3.0 reading of `integer`: a number without fraction or exponent part, within the range of its format (int32; int64 and no format: 64 bits)", "multipleOf ≠ 0 (the generator refuses 0)"],
-    "level_text": "partial: the leaf validators and the required-mask arithmetic are Lean theorems for every value (int_validate_iff on all of int64, float_validate_iff on every finite double as an exact rational, length_iff, props_iff, unique_iff, required_mask_iff); 'accept iff valid' for whole schemas is decided on every run by posting schema-directed valid instances, single-keyword boundary mutants and random JSON to regenerated servers and comparing (status, handler-invoked) with an independent reference validator — a correspondence, not a theorem",
+    "level_text": "partial: server_accepts_iff_valid — on the model of the generated decode-then-Validate path for the fragment objects / arrays / integers with bounds and multipleOf / strings with lengths / booleans / required / nullable, the verdict is validity against the schema, for schemas and documents of any size — and the leaf validators and the required-mask arithmetic are Lean theorems for every value (int_validate_iff on all of int64, float_validate_iff on every finite double as an exact rational, length_iff, props_iff, unique_iff, required_mask_iff); 'accept iff valid' for whole schemas is decided on every run by posting schema-directed valid instances, single-keyword boundary mutants and random JSON to regenerated servers and comparing (status, handler-invoked) with an independent reference validator — a correspondence, not a theorem",
     "level_note": "trusted: Lean kernel, statements, leaf models + their differential tie, the harness' reference validator and schema/instance generators, gencheck pipeline.",
     "technique": "Lean 4 proofs of the runtime validators on BitVec 64/Int and of the required bit mask; generated decode-and-validate path checked differentially against an independent reference validator on regenerated servers",
 }
